@@ -5,13 +5,17 @@ import (
 	"errors"
 	"fmt"
 
+	"verif/simrt"
 	"zombiezen.com/go/commonmark"
 )
 
 func safeParse(doc []byte) (blocks []*commonmark.RootBlock, refs commonmark.ReferenceMap, ok bool) {
+	// on instrumented builds a hang in Parse is cut off by the step budget
+	simrt.SetBudget(stepBudget(len(doc)))
+	defer simrt.SetBudget(0)
 	defer func() {
 		if r := recover(); r != nil {
-			ok = false
+			blocks, refs, ok = nil, nil, false
 		}
 	}()
 	blocks, refs = commonmark.Parse(append([]byte(nil), doc...))
@@ -76,6 +80,14 @@ func checkC20(s *Scenario) (*Failure, *sinkObs) {
 			return &Failure{Check: "determinism", Observed: firstDiff(string(hw.Buf), string(fwr.Buf))}, obs
 		}
 		return nil, obs
+	}
+	// a healthy run after the failed one must be unaffected by it
+	aw, awr := newSimWriter(&WriterScn{Flavour: s.Writer.Flavour, FailAt: -1, ByteBudget: -1})
+	if err2 := formatBlocks(awr, blocks); err2 != nil {
+		return &Failure{Check: "healthy-err", Observed: fmt.Sprintf("Format on a healthy writer, after an earlier call failed, returned %v", err2)}, obs
+	}
+	if !bytes.Equal(aw.Buf, hw.Buf) {
+		return &Failure{Check: "determinism", Observed: "healthy run after a failed run: " + firstDiff(string(hw.Buf), string(aw.Buf))}, obs
 	}
 	if fwr.AfterFail > 0 {
 		return &Failure{Check: "write-after-fail", Observed: fmt.Sprintf("%d write calls after the failing call #%d (returned error: %v)", fwr.AfterFail, fwr.Calls-fwr.AfterFail-1, err)}, obs
